@@ -118,10 +118,13 @@ def case(cid, rng):
         return c
     # held-out sets of every size: 1, < n, = n, > n
     helds = []
-    for V in (1, max(2, n - 2), n, n + 3):
-        Xv = rng.integers(-6, 7, size=(V, m)) / 4.0
-        Yv = rng.integers(-6, 7, size=(V, p)) / 4.0
-        Yv[0, 0] = Yv[0, 0] if Yv[0, 0] != 0 else 0.5
+    for V in (1, max(2, n - 2), n, n + 3, -1):
+        if V == -1:
+            V, Xv, Yv = n, X.copy(), Y.copy()            # the training set itself: score must equal the in-sample formula
+        else:
+            Xv = rng.integers(-6, 7, size=(V, m)) / 4.0
+            Yv = rng.integers(-6, 7, size=(V, p)) / 4.0
+            Yv[0, 0] = Yv[0, 0] if Yv[0, 0] != 0 else 0.5
         KVN = kraw(Xv, X, kp, full)
         KVV = kraw(Xv, None, kp, full)
         h = {"V": V, "KVN": fq(KVN), "KVV": fq(KVV), "Y": fq(Yv), "TV": [], "yp": [], "score": 0, "raised": False, "finite": True}
